@@ -178,9 +178,9 @@ def rareReq : ReqSt → List ReqCall → List String
        | .set k v | .add k v | .setCanonical k v =>
          let k' := match c with | .set _ _ => H1.normalizeKey s.disableNorm k | _ => k
          (if H1.ciEq strCookie k' && k'.length > 0 && !s.cookiesCollected && s.h.any (fun kv => kv.1 == strCookie) then ["collect"] else []) ++
-         (if H1.ciEq strConnection k' && s.connClose && v != strClose then ["connreset"] else []) ++
+         (if H1.ciEq strConnection k' && s.connClose && !H1.ciEq strClose v then ["connreset"] else []) ++
          (if H1.ciEq strContentLength k' then [if (parseContentLength v).isSome then (if s.h.any (fun kv => kv.1 == strTransferEncoding) then "cl-drops-te" else "cl-ok") else "cl-bad"] else []) ++
-         (if H1.ciEq strTrailer k' then [if (setTrailers s.disableNorm v).length < ((H1.splitOn 44 v).filter (fun e => !(H1.stripSpace e).isEmpty)).length then "trailers-refused" else "trailers"] else []) ++
+         (if H1.ciEq strTrailer k' then [if (setTrailers s.disableNorm v).length < ((H1.splitOn 44 v).filter (fun e => !(H1.stripOWS e).isEmpty)).length then "trailers-refused" else "trailers"] else []) ++
          (if H1.ciEq strTransferEncoding k' then ["te-ignored"] else []) ++
          (match c with | .add _ _ => (if k != H1.normalizeKey s.disableNorm k && (s.setSpecial k v).isSome then ["add-raw-special"] else []) | _ => [])
        | .setCookie _ _ | .delCookie _ | .delAllCookies =>
@@ -200,7 +200,7 @@ def rareResp : RespSt → List RespCall → List String
       (match c with
        | .set k v | .add k v | .setCanonical k v | .ctxHeader k v =>
          let k' := match c with | .add _ _ | .setCanonical _ _ => k | _ => H1.normalizeKey s.disableNorm k
-         (if H1.ciEq strConnection k' && s.connClose && v != strClose && !v.isEmpty then ["connreset"] else []) ++
+         (if H1.ciEq strConnection k' && s.connClose && !H1.ciEq strClose v && !v.isEmpty then ["connreset"] else []) ++
          (if H1.ciEq strContentLength k' && !v.isEmpty then [if (parseContentLength v).isSome then (if s.h.any (fun kv => kv.1 == strTransferEncoding) then "cl-drops-te" else "cl-ok") else "cl-bad"] else []) ++
          (if H1.ciEq strTrailer k' && !v.isEmpty then ["trailers"] else []) ++
          (if H1.ciEq strSetCookie k' && !v.isEmpty then ["set-cookie-raw"] else []) ++
